@@ -204,15 +204,17 @@ CHECKS = {
         "traversals reach every reachable vertex for every graph, that the labels are shortest-path hop counts for every edge order, connected-"
         "component extraction (decoupleIsolatedSubGraphs), reduceGraph/expandGraph round trips, the choice among equal-degree start vertices in "
         "findStructureId, BeadStructure::breakIntoStructures. A change confined to those parts is not seen by this check."),
- "C15": dict(cat="other", ref="DESIGN.md section 4 C15",
-   technique="symbolic folding of eeInteractor::FillTholeInteraction (helpers and std::pair results inlined) with the inter-site distance as a positive atom and exact identities read off the folded tensor; rank gating of VSiteA<N>: every (rank a of A) x (rank b of B) block is accumulated exactly once for every instantiation and every rank of B",
-   text="THIN partial claim: decides only the last clause of the property - the damped dipole-dipole interaction tensor is -3 l5 a a^T + l3 I "
-        "over the unit vector, hence symmetric; in the undamped branch l3 = l5 = R^-3 and the tensor is traceless; the damping factors "
-        "are (1-e^-u) and (1-(1+u)e^-u) so the tensor tends to the undamped one at large separation - and that the monopole entry is q/R."
-        + 'Also: callers that contract VSiteA<N>(A,B) with Q(A) use N = 9 whenever rank(A) = 2, over all nine rank pairs; the charge-charge entry starts as q_B/|posB - posA|; StaticSite::Rotate maps the position to ref + R (pos - ref), rotates the dipole iff rank >= 1 and the quadrupole as R C R^T iff rank >= 2 (necessary for rotation invariance); size selection by rank pairs. ',
-   note="NOT decided (the bulk): exchange symmetry of the pair energy, invariance of the energy itself under translation/rotation, the rank-1/2 interaction blocks, the "
-        "point-charge-cluster limit, the field/energy derivative relation. These need path-sensitive evaluation of the if-constexpr/rank "
-        "branches of VSiteA<N> or execution - outside this family. xtp is parsed, not built."),
+ "C15": dict(cat="proof", ref="DESIGN.md section 4 C15 and section 9.7",
+   technique="dense symbolic folding of eeInteractor::VSiteA<N> (vsa/dense.py: fixed-size Eigen objects as tables of sympy expressions, block accessors as index views, accessors and AxA folded from their bodies) for every instantiation and every rank of site B, exact comparison of the coefficient matrix with the interaction tensor of the Cartesian multipole expansion derived in the rule by differentiating 1/r (normal form modulo |u| = 1); folding of FillTholeInteraction, StaticSite::Rotate and the spherical/Cartesian quadrupole conversions; rank gating and size selection by cases",
+   text="Decides for all positions, moments and rank combinations: VSiteA<N>(A,B) is T(posB - posA) Q(B) with T equal, block by block, to the tensor of the "
+        "multipole expansion (q_A + mu_A.d + Theta_A:dd/3)(q_B - mu_B.d + Theta_B:dd/3) 1/r in real spherical components; that tensor satisfies T_ij(u) = T_ji(-u) "
+        "(the pair energy does not depend on the order of the sites, given that the callers contract with the full moment vector - R15.4), depends on the "
+        "separation only (translation invariance), is a contraction of Cartesian tensors (rotation invariance, given that Rotate turns position, dipole and "
+        "quadrupole together - R15.5 - and that the spherical<->Cartesian maps are the expansion's and inverse to each other), has T_00 = 1/R, and is by "
+        "construction the limit of shrinking point-charge clusters. Field and energy are read off the same interaction vector. The damped dipole-dipole tensor "
+        "is -3 l5 a a^T + l3 I, symmetric, traceless undamped, with damping factors that tend to one.",
+   note="Identities between formulas of the current source and the expansion derived in the rule (sympy exact arithmetic); trusted: clang front end, sympy. Not "
+        "decided: floating-point error of the compiled code, the rate of convergence of finite clusters, induced-dipole iterations. xtp is parsed, not built."),
 }
 NA = {}
 m = {"version": 1, "setup_cmd": "./setup.sh",
